@@ -258,6 +258,21 @@ def check(ctx):
     ctx.floor("canonical_sorts", 2)
     ctx.floor("alternative_encodings", 1)
 
+    # ---------------- INJ.private-attr: normalisers read the public state of the object they normalise.
+    # Private attributes of third-party objects are caches/raw storage that can miss part of the value
+    # (MultiIndex._levels has no names) or depend on history; the four reads below were confirmed.
+    PRIVATE_OK = {("normalize_series", "_values"), ("normalize_dataframe", "_mgr"), ("normalize_numba_ufunc", "_reduce_class"), ("normalize_numba_ufunc", "_reduce_states"), ("normalize_extension_array", "_pa_array"), ("normalize_extension_array", "_data")}
+    for f in funcs + helpers:
+        ps = {a.arg for a in f.args.args}
+        for n in ast.walk(f):
+            if isinstance(n, ast.Attribute) and isinstance(n.value, ast.Name) and n.value.id in ps and n.attr.startswith("_") and not n.attr.startswith("__"):
+                ok = (f.name, n.attr) in PRIVATE_OK
+                ctx.ob("INJ.private-attr", n, f"{f.name} reads {unparse(n)}", ok, "" if ok else "the token is built from a private attribute of the normalised object: public state that distinguishes values (names, flags) may not be in it, and equal objects with different history can tokenize differently", nontrivial=not ok)
+    # ---------------- INJ.dataclass: every field of a dataclass instance is part of its token
+    dcf = mod.func("_normalize_dataclass")
+    comps = [c for c in ast.walk(dcf) if isinstance(c, ast.ListComp) and "dataclasses.fields(obj)" in unparse(c.generators[0].iter)]
+    ok = len(comps) == 1 and not comps[0].generators[0].ifs and "getattr(obj, field.name" in unparse(comps[0].elt) and "field.name" in unparse(comps[0].elt)
+    ctx.ob("INJ.dataclass-all-fields", dcf, "every dataclasses.fields(obj) entry contributes (name, value)", ok, "" if ok else "fields are filtered out of the token: instances that differ only there compare unequal but share a token")
     # ---------------- INJ.dtype: the dtype normaliser must not project structured dtypes onto their size
     nd = [f for f in funcs if f.name == "normalize_dtype"]
     if not nd:
@@ -330,6 +345,8 @@ def check(ctx):
 
 
 VARIANTS = [
+    (TOK, "            + [normalize_token(x) for x in ind.levels]", "            + [normalize_token(x) for x in ind._levels]", "INJ.private-attr"),
+    (TOK, "        for field in dataclasses.fields(obj)\n    ]", "        for field in dataclasses.fields(obj)\n        if field.init\n    ]", "INJ.dataclass-all-fields"),
     (TOK, "        return (data, x.dtype, x.shape)", "        return (data, x.dtype.str, x.shape)", "INJ.typed-buffer"),
     (TOK, "        if dtype.kind == \"V\":", "        if False:", "INJ.dtype"),
     (TOK, "                except UnicodeDecodeError:\n                    # bytes fast-path", "                except TypeError:\n                    # bytes fast-path", "INJ.alternatives"),
